@@ -2,9 +2,17 @@
 """tools/seed_import.py <Cxx> [A B ...] : confirm candidate changes delivered under /tmp/wt/<Cxx>/out and keep the
 confirmed ones as /verif/seeded/<Cxx>-<tag>/ (patch.diff, demo.py, meta.json, notes)."""
 import sys, os, json, subprocess, shutil
-pid = sys.argv[1]
-tags = sys.argv[2:] or ['A', 'B']
-src = f'/tmp/wt/{pid}/out'
+import argparse
+ap = argparse.ArgumentParser()
+ap.add_argument('pid')
+ap.add_argument('tags', nargs='*')
+ap.add_argument('--src')
+ap.add_argument('--suffix', default='')
+args = ap.parse_args()
+pid = args.pid
+tags = args.tags or ['A', 'B']
+src = args.src or f'/tmp/wt/{pid}/out'
+SUF = args.suffix
 for tag in tags:
     if not os.path.exists(f'{src}/{tag}.diff'):
         print(pid, tag, 'missing'); continue
@@ -14,14 +22,14 @@ for tag in tags:
     except Exception:
         print(pid, tag, 'verify crashed', r.stdout[-500:], r.stderr[-500:]); continue
     ok = res.get('demo_clean_pass') and res.get('applies') and res.get('demo_changed_fails') and res.get('suite_new_failures') == []
-    dst = f'/verif/seeded/{pid}-{tag}'
+    dst = f'/verif/seeded/{pid}-{tag}{SUF}'
     if ok:
         os.makedirs(dst, exist_ok=True)
         shutil.copy(f'{src}/{tag}.diff', f'{dst}/patch.diff')
         shutil.copy(f'{src}/demo_{tag}.py', f'{dst}/demo.py')
         if os.path.exists(f'{src}/NOTES.md'):
             shutil.copy(f'{src}/NOTES.md', f'{dst}/NOTES.md')
-        meta = {'property': pid, 'variant': tag, 'origin': 'independent sub-agent given only the property text and a scratch worktree',
+        meta = {'property': pid, 'variant': tag + SUF, 'origin': 'independent sub-agent given only the property text and a scratch worktree',
                 'confirmed': {'demo_passes_on_clean_tree': True, 'demo_fails_with_change': True,
                               'suite_with_change': res.get('suite_tail'), 'new_suite_failures': []},
                 'ran': ['git apply patch.diff (fresh scratch worktree of /repo HEAD)', 'pytest demo.py (clean: pass, changed: fail)',
